@@ -398,6 +398,18 @@ pub fn oracle_sequence(bg: &[u8], start: usize, ops: &[SeqOp]) -> Result<(usize,
     let mut roff = start.min(total);
     for (i, op) in ops.iter().enumerate() {
         let (c, w, _) = op_params(op);
+        // one step in five moves the cursor with consume_bits (the other public way to advance it), staying inside the buffer
+        if op.2 % 5 == 4 {
+            let k = (op.1 as usize) % 9;
+            if roff + k <= total {
+                par.consume_bits(k);
+                roff += k;
+                if par.offset() != roff {
+                    return Err(("c07:seq-consume-cursor".into(), format!("read step {}: consume_bits({}) left the cursor at {}, reference {}", i, k, par.offset(), roff)));
+                }
+            }
+            continue;
+        }
         let fits = roff + w <= total;
         let kind = carrier_kind(c);
         let want = if fits { Some(ref_value(kind, w, get_bits(&buf, roff, w).unwrap())) } else { None };
